@@ -33,6 +33,8 @@ const (
 const (
 	eSplit = 2*nParseEntries + iota
 	eLex
+	eQuote     // token.Quote*/IsKeyword on the words of the input: no lexer involved
+	eHandBuilt // SQL()/Pos/End/Walk on nodes built by hand from the words of the input: no parse
 	nEntries
 )
 
@@ -44,7 +46,7 @@ var entryNames = func() []string {
 	for _, b := range base {
 		out = append(out, "Parser."+b)
 	}
-	out = append(out, "SplitRawStatements", "Lexer.NextToken")
+	out = append(out, "SplitRawStatements", "Lexer.NextToken", "token.Quote*", "hand-built-AST")
 	return out
 }()
 
@@ -108,6 +110,36 @@ func callEntry(entry int, path, s string) (sub *subject) {
 	case entry == eSplit:
 		r, err := memefish.SplitRawStatements(path, s)
 		sub.val, sub.err = r, err
+	case entry == eQuote:
+		ws, _, _ := scanWords(s)
+		var out []string
+		for i, w := range ws {
+			if i >= 12 {
+				break
+			}
+			t := s[w.lo:w.hi]
+			out = append(out, token.QuoteSQLIdent(t), fmt.Sprint(token.IsKeyword(t)), token.QuoteSQLString(t), token.QuoteSQLBytes([]byte(t)))
+		}
+		out = append(out, token.QuoteSQLString(s), token.QuoteSQLIdent(s))
+		sub.val = out
+	case entry == eHandBuilt:
+		ws, _, _ := scanWords(s)
+		var ids []*ast.Ident
+		for i, w := range ws {
+			if i >= 4 {
+				break
+			}
+			ids = append(ids, &ast.Ident{NamePos: token.Pos(w.lo), NameEnd: token.Pos(w.hi), Name: s[w.lo:w.hi]})
+		}
+		if len(ids) == 0 {
+			ids = append(ids, &ast.Ident{Name: s})
+		}
+		path := &ast.Path{Idents: ids}
+		lit := &ast.StringLiteral{ValuePos: 0, ValueEnd: token.Pos(len(s)), Value: s}
+		call := &ast.CallExpr{Func: &ast.Path{Idents: ids[:1]}, Args: []ast.Arg{&ast.ExprArg{Expr: lit}, &ast.ExprArg{Expr: path}}}
+		bin := &ast.BinaryExpr{Op: ast.OpAdd, Left: path, Right: call}
+		sub.nodes = []ast.Node{ids[0], path, lit, bin}
+		sub.val = sub.nodes
 	case entry == eLex:
 		lex := &memefish.Lexer{File: &token.File{FilePath: path, Buffer: s}}
 		res := &lexResult{}
@@ -342,8 +374,10 @@ func variantApplies(e, v int) bool {
 	switch e {
 	case eSplit:
 		return v == vBase || v == vSplitThenParse
-	case eLex:
+	case eLex, eQuote:
 		return v == vBase
+	case eHandBuilt:
+		return v != vSplitThenParse && v != vRoundTrip && v != vQuoteAndPosition
 	}
 	return v != vSplitThenParse
 }
